@@ -196,7 +196,7 @@ PROPERTIES = {
         "rules": [
             (E.E1_lmpdat_writer_reader, "C13 section table, column layouts, +1/-1 pairing, tilt entries, count lines, comments"),
             (B.B1_kind_blocks, "C13 per-kind writer and reader blocks agree", {"funcs": ["Atoms.save_lmpdat", "Atoms.load_lmpdat"]}),
-            (D.D2_type_counts, "C13 declared type counts match the sections written"),
+            (D.D2_type_counts, "C13 declared type counts match the sections written", {"pair": False}),
             (D.D3_format_arity, "C13 format arity at all writer sites", {"modules": ["mofun.atoms"]}),
             (E.E_dispatch, "C13 load/save dispatch by extension or explicit type"),
             (C.C_axis_diag, "C13 box lengths from the cell diagonal only after LAMMPS orientation is validated"),
